@@ -292,12 +292,12 @@ func (m *monitor) checkValidation(p *gPipe, name string) *supervisor.Spec {
 	}
 	if len(ill) == 0 {
 		r.Count("valid_accepted", 1)
-		r.Cover("validate:ok|" + shapeClass(p))
+		r.Cover("validate:ok|" + shapeClass(p, false))
 	} else {
 		for _, c := range ill {
 			r.Count("rejected:"+c, 1)
 		}
-		r.Cover("validate:" + strings.Join(ill, "+") + "|" + shapeClass(p))
+		r.Cover("validate:" + strings.Join(ill, "+") + "|" + shapeClass(p, false))
 	}
 	if len(ill) == 0 && e1 == nil && e2 == nil {
 		return super
